@@ -55,6 +55,7 @@ def run(ctx):
                 ctx.count('high_index_mixtures')
                 check_pair(ctx, name, lib, [big, small], rs, batch)
                 check_pair(ctx, name, lib, [small, big], rs[::-1], batch)
+    big_mixtures(ctx, libs_, batch)
     full = S.FullTie(ctx, max_cases=ctx.n(160, 2000))      # per library
     pipe = P.PipeTie(ctx, max_cases=ctx.n(45, 500))        # per library: the composed pipeline (decompose, then estimate)
     pipe.mixtures = collections.Counter()
@@ -106,6 +107,98 @@ def run(ctx):
                 ctx.disagree('corr:c02.descriptors', where, impl['ok'], {k: float(v) for k, v in model.items()})
 
 
+# species whose perception is the delicate part of the decomposition: RDKit's own aromaticity model and the Benson rule of the
+# package (only an isolated alternating all-carbon six-ring becomes aromatic, ring by ring) disagree on them, or the Kekule form
+# RDKit picks matters - fused and linked aromatics in both spellings, hetero-aromatics, non-benzenoid rings, quinone, radicals
+PERCEPTION_SENSITIVE = ['c1ccc2ccccc2c1', 'c1ccc2cc3ccccc3cc2c1', 'c1ccc2c(c1)ccc1ccccc12', 'Cc1cccc2ccccc12', 'C1=CC=C2C=CC=CC2=C1',
+                        'c1ccc(cc1)c1ccccc1', 'c1ccc2c(c1)CCC2', 'c1ccc2c(c1)CC=C2', 'c1ccoc1', 'c1ccncc1', 'c1ccc2occc2c1', 'C1=CC=CC=CC=C1',
+                        'O=C1C=CC(=O)C=C1', 'c1ccc2c(c1)ccc1c2ccc2ccccc21', '[CH2]c1cccc2ccccc12', 'Oc1cccc2ccccc12', 'c1ccccc1', 'Cc1ccccc1C',
+                        'C1=CC=CC1', 'c1cc2cccc3ccc4cccc1c4c32', '[Pt]c1cccc2ccccc12', 'c1ccc2cc(O[Pt])ccc2c1']
+
+
+def big_mixtures(ctx, libs_, batch):
+    """The decomposition of a species must not depend on how big the input around it is.  Inputs of several hundred atoms - one
+    long alkane (422, 788, 905 atoms with hydrogens), or many mid-size species - with a perception-sensitive species before or
+    after it: the descriptors must still be the sum of the components' (a size- or component-count-dependent path that treats
+    a component differently from the same species alone shows here and nowhere else)."""
+    rng = ctx.rng
+    names = [n for n, _ in libs_]
+    chosen = names if ctx.thorough() else [n for n in names if n in ('BensonGA', 'GRWSurface2018')] + \
+        rng.sample([n for n in names if n not in ('BensonGA', 'GRWSurface2018')], 2)
+    for name, lib in libs_:
+        if name not in chosen:
+            continue
+        bigs = [['C' * rng.choice([140, 262])], ['CCCCCCCCCC'] * 14 + ['CC(C)=O'] * 3]
+        if ctx.thorough():
+            bigs = [['C' * 140], ['C' * 262], ['CCCCCCCCCC'] * 14 + ['CC(C)=O'] * 3, ['CCO'] * 50,
+                    rng.choice([['C' * 301], ['C' * 100, 'OC' + 'C' * 60]])]
+        smalls = PERCEPTION_SENSITIVE[:2] + rng.sample(PERCEPTION_SENSITIVE[2:], ctx.n(5, 10))
+        memo = {}
+
+        def res(x):
+            if x not in memo:
+                memo[x] = S.impl_descriptors(lib, x)
+            return memo[x]
+        for big in bigs:
+            for k, small in enumerate(smalls):
+                if ctx.time_left() < 120:
+                    return
+                ctx.count('big_mixtures')
+                orders = [[small] + big, big + [small], big[:len(big) // 2] + [small] + big[len(big) // 2:]]
+                for parts in (orders if ctx.thorough() else rng.sample(orders, 2)):
+                    before = len(ctx.violations)
+                    check_pair(ctx, name, lib, parts, [res(x) for x in parts], batch if k == 0 else None)
+                    if len(ctx.violations) > before:
+                        # report the failing mixture in its smallest form instead
+                        smaller = shrink_big(lib, parts, small, res)
+                        if smaller != parts:
+                            del ctx.violations[before:]
+                            check_pair(ctx, name, lib, smaller, [res(x) for x in smaller], None)
+                        return
+
+
+def additive(lib, parts, res):
+    """is the decomposition of the mixture the sum of (or does it fail with) its components'?"""
+    r = S.impl_descriptors(lib, '.'.join(parts))
+    rs = [res(x) for x in parts]
+    if any('err' in x for x in rs) or 'err' in r:
+        return ('err' in r) == any('err' in x for x in rs) and not r.get('err', '').startswith('internal')
+    total = {}
+    for x in rs:
+        total = S.add_counts(total, x['ok'])
+    return S.same_counts(r['ok'], total)
+
+
+def shrink_big(lib, parts, small, res):
+    """a failing big mixture in its smallest form: fewer companion species, then shorter alkane chains (bisection), as long as
+    the mixture stays non-additive - the recorded input then shows the size at which the behaviour changes"""
+    parts = list(parts)
+    changed = True
+    while changed and len(parts) > 2:
+        changed = False
+        for i in range(len(parts)):
+            if parts[i] == small:
+                continue
+            fewer = parts[:i] + parts[i + 1:]
+            if small in fewer and len(fewer) >= 2 and not additive(lib, fewer, res):
+                parts, changed = fewer, True
+                break
+    for i, x in enumerate(parts):
+        if x != small and set(x) == {'C'} and len(x) > 1:
+            lo, hi = 1, len(x)        # fails at hi; find the smallest failing length above a passing one
+            while hi - lo > 1:
+                mid = (lo + hi) // 2
+                if additive(lib, parts[:i] + ['C' * mid] + parts[i + 1:], res):
+                    lo = mid
+                else:
+                    hi = mid
+            parts[i] = 'C' * hi
+    return parts
+
+
+_SEP = {}
+
+
 def check_pair(ctx, name, lib, parts, results, batch, full=None, pipe=None):
     mix = '.'.join(parts)
     r = S.impl_descriptors(lib, mix)
@@ -146,8 +239,12 @@ def check_pair(ctx, name, lib, parts, results, batch, full=None, pipe=None):
     try:
         ps = []
         for part in parts:
-            m = S.prepare(part)
-            ps.append(S.declared(S.scheme_input(lib.scheme, m), parts=True)['ok'])
+            key = (id(lib), part)
+            if key not in _SEP or _SEP[key][0] is not lib:
+                if len(_SEP) > 4000:
+                    _SEP.clear()
+                _SEP[key] = (lib, S.declared(S.scheme_input(lib.scheme, S.prepare(part)), parts=True)['ok'])
+            ps.append(_SEP[key][1])
         dkeys = set().union(*[set(d) for _, d in ps])
         sep = all(g.get(t, 0) == 0 for g, _ in ps for t in dkeys)
     except Exception:
@@ -163,7 +260,7 @@ def check_pair(ctx, name, lib, parts, results, batch, full=None, pipe=None):
     elif pipe is not None:
         pipeline_step(ctx, name, lib, parts, sep, pipe)
     # tie + validation of the union structure RDKit gives (A-graph for mixtures)
-    if len(batch) < ctx.n(400, 5000):
+    if batch is not None and len(batch) < ctx.n(400, 5000):
         mol = S.prepare(mix)
         if mol is not None:
             batch.append((S.scheme_input(lib.scheme, mol), r, {'scheme': name, 'smiles': mix}))
